@@ -432,3 +432,18 @@ def _sql_no_where(ip, args, kw):
     """The SELECT has no WHERE clause (every row of the table takes part) and no LIMIT."""
     P, syms = _parse(ip, args[0])
     return ZB(not P.where and P.limit is None)
+
+# ---- Connection.in_transaction / rollback(): whether a transaction is open is a function of the connection and of what has been done so far
+conn_in_txn = declare_pred("conn_in_txn", L.V, L.V, L.B)
+R.ATTRS[("Conn", "in_transaction")] = lambda ip, r: ZB(conn_in_txn(r.term, ip.st.effects))
+
+
+def _conn_rollback(ip, r, a, kw, node):
+    if ip.branch(L.fresh("sqlite_raises", L.B), getattr(node, "lineno", 0)):
+        raise RaisedEx(ExcVal("sqlite3.Error", exact=False), getattr(node, "lineno", 0))
+    ip.st.effects = L.seq_append(ip.st.effects, L.mk_tuple([as_v(PyC("rollback")), r.term]))
+    return PyC(None)
+
+
+R.METHODS[("Conn", "rollback")] = _conn_rollback
+R.TAG_CLASS["SQLiteStore"] = "monkeytype.db.sqlite:SQLiteStore"
